@@ -2,6 +2,7 @@
 from lib import core, gen
 
 LEVEL = 'proof'
+HISTORY = {}                  # id -> calls made before it on the same thread (history cases)
 BBH_FEATURES = ['oracle']      # harness command families this check needs (fallback build, lib/core.py build_bbh)
 LIMITS_Q = [1, 2, 3, 5, 9, 17, 33, 50, 100, 300]
 PLAIN_BUDGET = 200000
@@ -100,6 +101,18 @@ def run(rep, tier, seed):
     h = core.run_bbh(lines)
     m = core.run_bbm(lines)
     diffs = core.diff_answers(cs, h, m)
+    # HISTORIES: sibling programs (one-slot edits of one table, also tables of 9+ slots) asked in a row on ONE thread:
+    # the answer must not depend on what was asked before (per-thread caches, memo tables with lossy keys, reused buffers)
+    hrng = core.mkrng(seed, 'C07-hist')
+    hcs = gen.history_cases(hrng, 120 if tier == 'quick' else 1500, lambda r, S, C: (lambda lim: (lambda p: f'rec|{p}|{lim}'))(r.choice([9, 17, 50, 300])), nf=True)
+    hl = [f'{i}|{l}' for i, l in hcs]
+    hh, hm = core.run_bbh(hl, threads=1), core.run_bbm(hl)
+    diffs += core.diff_answers(hcs, hh, hm)
+    cs = cs + hcs
+    h.update(hh)
+    m.update(hm)
+    global HISTORY
+    HISTORY = gen.history_of(hcs)
     fails, stats = oracle(cs, h)
     kinds = {}
     for cid, _ in cs:
@@ -124,6 +137,7 @@ def run(rep, tier, seed):
 
 def search(rep, diffs, fails):
     for cid, line, why in fails[:3]:
+        why = gen.hist_note(why, HISTORY.get(cid))
         _, prog, lim = line.split('|')
         # shrink the limit
         best = int(lim)
